@@ -12,6 +12,13 @@ func main() {
 		fmt.Println("usage: vfcheck <id> quick|thorough")
 		os.Exit(2)
 	}
+	if os.Args[1] == "transcript" {
+		if err := transcript(os.Args[2]); err != nil {
+			fmt.Println("HARNESS-ERROR:", err)
+			os.Exit(2)
+		}
+		return
+	}
 	id, tier := os.Args[1], os.Args[2]
 	f, ok := checks[id]
 	if !ok || (tier != "quick" && tier != "thorough") {
